@@ -82,6 +82,7 @@ package drpcmetadata
 // Decode returns a map or an error for every input; it terminates because every entry consumes
 // at least two bytes.
 //@ func Decode
+//@   modifies maps
 //@   mode int
 //@   props C11 C13
 //@   loop 1 invariant [buf] arr(buf) == arr(buf0) || len(buf) == 0
@@ -100,6 +101,7 @@ package drpcmetadata
 //@   trusted "type assertion on a context value stored under the unexported key; the only writer is Add, which stores a map created by make"
 //@   ensures [nonnil] result1 ==> result0 != nil
 //@ func Add
+//@   modifies maps
 //@   props C11 C13
 //@   requires ctx != nil
 //@   ensures [ctx] result != nil
